@@ -71,6 +71,13 @@ def mc_export_job(args):
 
 
 def mc_export(base, model, params, name):
+    import hashlib
+    from vlib import dir_lock
+    with dir_lock(workdir(base, 'mc_' + hashlib.sha256(json.dumps([model, params], sort_keys=True).encode()).hexdigest()[:12])):
+        return _mc_export_unlocked(base, model, params, name)
+
+
+def _mc_export_unlocked(base, model, params, name):
     """Model check MCVec for `model` with `params`, exporting the transition relation.  Cached in `base`."""
     key = json.dumps([model, params], sort_keys=True)
     import hashlib
@@ -129,6 +136,14 @@ def mc_export(base, model, params, name):
 
 
 def sim_behaviours(base, model, params, num, depth, seed, name):
+    import hashlib
+    from vlib import dir_lock
+    key = json.dumps([model, params, num, depth, seed], sort_keys=True)
+    with dir_lock(workdir(base, 'sim_' + hashlib.sha256(key.encode()).hexdigest()[:12])):
+        return _sim_behaviours_unlocked(base, model, params, num, depth, seed, name)
+
+
+def _sim_behaviours_unlocked(base, model, params, num, depth, seed, name):
     """`tlc -simulate` behaviours of a larger model, printed by the same Export constraint."""
     key = json.dumps([model, params, num, depth, seed], sort_keys=True)
     import hashlib
